@@ -260,3 +260,10 @@ Example ex_parsed :
     (IAssert (FObject (SAlias 9) VPlain), []);
     (IStmt 2 None [n_pytest; n_alias; NVar 1], []) ].
 Proof. reflexivity. Qed.
+
+(* a leading bare literal (an unused str primitive the writer rewrote to an expression statement) is a
+   statement like any other: it is kept in first position *)
+Example ex_leading_literal :
+  let items := [IStmt 0 None []; IStmt 1 (Some 1%N) [n_alias]; IAssert (FObject (SVar 1) VPlain)] in
+  closed [] items = true /\ rerender (deserialize items) = items.
+Proof. split; reflexivity. Qed.
